@@ -54,7 +54,7 @@ ENVS = [
     {"x": Fraction(-3, 2), "y": Fraction(7, 3), "z": Fraction(-2), "w": Fraction(1, 5)},
     {"x": Fraction(1, 2), "y": Fraction(-5), "z": Fraction(11, 4), "w": Fraction(-9)},
 ]
-COEF_POOL = [0, 1, 2, 3, -1, -2, 0.5, 4, 6, -0.5, 12]
+COEF_POOL = [0, 1, 2, 3, -1, -2, 0.5, 4, 6, -0.5, 12, 0.00003, 40000]
 EXP_POOL = [0, 1, 2, 3, -1, -2]
 FACT_POOL = [0, 1, 3]
 
@@ -554,7 +554,7 @@ def run(prop: str, tier: str) -> int:
     budget = 420 if tier == "quick" else 720
     rnd = random.Random(seed())
     rnd.shuffle(sks)
-    use_grid("quick" if tier == "quick" else "full")
+    use_grid("quick")  # the 25-value grid is used by C05/C08/C16 thorough; here the families grow instead
     bounds["grid"] = grid_text()
     items = [(prop, s, name) for s in sks for name, _ in RULES
              if not (s in AM_ONLY and name.startswith("DistributiveFactorOut"))]
